@@ -23,6 +23,11 @@ func (k Keeper) InitGenesis(ctx sdk.Context, data types.GenesisState) {
 
 	for _, pair := range data.TokenPairs {
 		k.AddTokenPair(ctx, pair)
+		// the alias index is not part of the exported state: rebuild it from the bank
+		// metadata of the pair's denomination (the bank module is initialised first)
+		if md, found := k.HasDenomAlias(ctx, pair.Denom); found {
+			k.SetAliasesDenom(ctx, pair.Denom, md.DenomUnits[0].Aliases...)
+		}
 	}
 
 	if _, found := k.GetTokenPair(ctx, fxtypes.DefaultDenom); !found {
